@@ -1,6 +1,7 @@
 """C03 native oracle (bounded): all eight neuron classes vs an independent float64 step-counting reference."""
 from __future__ import annotations
 
+import copy
 import math
 import random
 
@@ -41,6 +42,11 @@ def run(cls, dt, refrac_t, lock, steps, seed):
     torch.manual_seed(seed)
     n = mk(cls, dt, refrac_t)
     n.eval()
+    # independently built twin driven by the same inputs, zeroed on ITS refractory neurons (copy.deepcopy of a neuron is
+    # not used: the copy would share the state storage)
+    torch.manual_seed(seed)
+    twin = mk(cls, dt, refrac_t)
+    twin.eval()
     last_spike = None
     window = max(1, math.ceil(refrac_t / dt - 1e-9))
     inp = dict(cls=cls, dt=dt, refrac_t=refrac_t, refrac_lock=lock, seed=seed)
@@ -49,7 +55,12 @@ def run(cls, dt, refrac_t, lock, steps, seed):
     for t in range(steps):
         x = torch.rand(2, 3) * 60.0 - 10.0
         v0 = n.voltage.clone()
+        # a refractory neuron receives no input (documented masked inputs): a twin stepped with the input zeroed on the
+        # refractory neurons must end in the same state, with voltage locking on or off
+        s2 = twin(x * ((twin.refrac - dt).clamp(min=0) == 0), refrac_lock=lock)  # refractory DURING this step: time left after the decrement
         s = n(x, refrac_lock=lock)
+        if not torch.equal(s, s2) or not torch.allclose(n.voltage, twin.voltage, rtol=0, atol=1e-6):
+            return {"what": "C03/refractory_neuron_integrates_its_input", "input": dict(inp, step=t), "expected": twin.voltage.flatten().tolist()[:6], "actual": n.voltage.flatten().tolist()[:6]}
         rv = RESET.get(cls)
         if rv is not None and (s & ((n.voltage - rv).abs() > 1e-5)).any():
             return {"what": "C03/voltage_after_spike_is_not_the_configured_reset", "input": dict(inp, step=t), "expected": rv, "actual": n.voltage[s].flatten().tolist()[:4]}
